@@ -7,7 +7,7 @@ must be REJECTED by the specification, with the verdict that names the broken ru
 is still accepted means the specification does not constrain that field: the self test fails (exit 1,
 no VIOLATION line - this is a defect of the machinery, not of the code under test).
 
-usage: vv selftest [cell] [tess] [nn] [par] [faces] [aux]      (default: all)
+usage: vv selftest [cell] [tess] [nn] [par] [faces] [aux] [session] [tile]      (default: all)
 Writes /verif/out/selftest.json.
 """
 import copy
@@ -555,7 +555,143 @@ def selftest_aux(report):
     generic_lines(report, "VAuxTrace", "trace/VAuxTrace.tla", recs, cor, failed_has)
 
 
-PARTS = {"cell": selftest_cell, "tess": selftest_tess, "nn": selftest_nn, "par": selftest_par, "faces": selftest_faces, "aux": selftest_aux}
+def _run_plain(module, trace_file, invs=("Consumed",), tags=("VERDICT",)):
+    cfg = os.path.join(OUT, "tlc", "selftest_%s.cfg" % os.path.basename(module).replace(".tla", ""))
+    write_cfg(cfg, spec="TSpec", invariants=list(invs), postcondition="TraceAccepted")
+    r = run_tlc(module, cfg, workers=1, dfs=True, env_extra={"VV_TRACE": trace_file}, tags=tags, timeout=1200, xmx="6g")
+    if r.violation or not r.ok:
+        raise ToolError("%s could not consume %s: %s" % (module, trace_file, r.violation or r.error))
+    return [v for t, v in r.cases if t == "VERDICT"]
+
+
+def selftest_session(report):
+    src = need(os.path.join(OUT, "C13_session.ndjson"), "C13")
+    recs = load(src)
+    # whole sessions only: the first 120 three-dimensional ones and the first 40 others
+    sessions, cur = [], []
+    for r in recs:
+        if r["e"] == "session" and cur:
+            sessions.append(cur)
+            cur = []
+        cur.append(r)
+    sessions.append(cur)
+    s3 = [x for x in sessions if x[0]["dim3"]][:400]
+    s2 = [x for x in sessions if not x[0]["dim3"]][:100]
+    base = s3 + s2
+    tmp = os.path.join(OUT, "selftest_session.ndjson")
+
+    def run(sess):
+        store(tmp, [r for x in sess for r in x])
+        return _run_plain("trace/VSessionTrace.tla", tmp, invs=("Consumed", "Summary"), tags=("VERDICT", "SUMMARY"))
+
+    v = run(base)
+    report.append(dict(spec="VSessionTrace", corruption="(pristine: %d sessions)" % len(base), rejected=bool(v), expected_rejection=False, detail=v[:1]))
+
+    def twice(x, pred=lambda op: True):
+        ops = [r["op"] for r in x[1:]]
+        for i in range(len(ops)):
+            for j in range(i + 1, len(ops)):
+                if ops[i] == ops[j] and ops[i] != "withfaces" and "withfaces" not in ops[i:j] and pred(ops[i]):
+                    return j + 1
+        return None
+
+    def cor_token(sess):           # the second of two identical calls returns something else
+        for x in sess:
+            j = twice(x)
+            if j:
+                x[j]["tok"] = "deadbeef" + x[j]["tok"][8:]
+                return "depends on the history"
+    def cor_direct(sess):          # direct build differs from the converted integrator (without faces)
+        for x in sess:
+            ops = [r["op"] for r in x[1:]]
+            if "direct" in ops and "convert" in ops and "withfaces" not in ops:
+                x[1 + ops.index("direct")]["tok"] = "0123456789abcdef"
+                return "depends on the history"
+    def cor_cellrt(sess):          # the round trip through the other type-state changes the cell integrals
+        for x in sess:
+            ops = [r["op"] for r in x[1:]]
+            if "cellrt" in ops and "cellint" in ops and "withfaces" not in ops:
+                x[1 + ops.index("cellrt")]["tok"] = "0123456789abcdef"
+                return "depends on the history"
+    def cor_faces_2d(sess):        # with_faces "succeeds" in a 1D / 2D session
+        for x in sess:
+            if not x[0]["dim3"]:
+                x.insert(1, {"e": "call", "op": "withfaces", "tok": "", "panic": False})
+                return "type-state does not allow"
+    def cor_twice_wf(sess):        # with_faces twice
+        for x in sess:
+            ops = [r["op"] for r in x[1:]]
+            if "withfaces" in ops:
+                x.insert(2 + ops.index("withfaces"), {"e": "call", "op": "withfaces", "tok": "", "panic": False})
+                return "type-state does not allow"
+    def cor_panic(sess):
+        sess[3][1]["panic"] = True
+        return "panicked"
+    for name, fn in [("token of a repeated observation changed", cor_token), ("direct build differs from convert (without faces)", cor_direct),
+                     ("cell round trip changes the integrals", cor_cellrt), ("with_faces accepted in a 1D/2D session", cor_faces_2d),
+                     ("with_faces called twice", cor_twice_wf), ("a call panics", cor_panic)]:
+        sess = copy.deepcopy(base)
+        expect = fn(sess)
+        if expect is None:
+            report.append(dict(spec="VSessionTrace", corruption=name, rejected=None, expected_rejection=True, detail="no applicable session"))
+            continue
+        v = run(sess)
+        hit = [x for x in v if expect in x["what"]]
+        report.append(dict(spec="VSessionTrace", corruption=name, rejected=bool(hit), expected_rejection=True, detail=(hit or v)[:1]))
+
+
+def selftest_tile(report):
+    src = os.path.join(OUT, "C02_vol.ndjson")
+    if not os.path.exists(src):
+        out = vvchecks.Outcome("C02", "quick", 0)
+        vvchecks.measure_model(out, "quick", 0, ["R3s", "D1p"], 4, "C02")
+    recs = load(src)
+    key = lambda r: json.dumps([r["G"], r["dim"], r["per"], r["gens"]])
+    groups, cur = [], []
+    for r in recs:
+        if cur and key(r) != key(cur[0]):
+            groups.append(cur)
+            cur = []
+        cur.append(r)
+    groups.append(cur)
+    multi = [g for g in groups if len(g[0]["gens"]) >= 2][:60]
+    base = multi + [g for g in groups if len(g[0]["gens"]) == 1][:10]
+    tmp = os.path.join(OUT, "selftest_tile.ndjson")
+
+    def run(gs):
+        store(tmp, [r for g in gs for r in g])
+        return [v for v in _run_plain("trace/VTileTrace.tla", tmp) if v["failed"]]
+
+    v = run(base)
+    report.append(dict(spec="VTileTrace", corruption="(pristine: %d inputs)" % len(base), rejected=bool(v), expected_rejection=False, detail=v[:1]))
+
+    def cor_residue(gs):
+        gs[0][0]["r"] = [(x + 1) % 46000 for x in gs[0][0]["r"]]
+        # all lines of that cell must be changed alike, otherwise it is the order-dependence rule that fires
+        for r in gs[0][1:]:
+            if r["cell"] == gs[0][0]["cell"]:
+                r["r"] = list(gs[0][0]["r"])
+        return "do not sum"
+    def cor_drop(gs):
+        c = gs[1][0]["cell"]
+        gs[1] = [r for r in gs[1] if r["cell"] != c]
+        return "no finished state"
+    def cor_order(gs):
+        r = copy.deepcopy(gs[2][0])
+        r["r"] = [(x + 7) % 46000 for x in r["r"]]
+        gs[2].append(r)
+        return "depends on the order"
+    for name, fn in [("volume of one cell changed by one unit", cor_residue), ("one cell of an input missing", cor_drop),
+                     ("a second finished state of a cell with another volume", cor_order)]:
+        gs = copy.deepcopy(base)
+        expect = fn(gs)
+        v = run(gs)
+        hit = [x for x in v if any(expect in f for f in x["failed"])]
+        report.append(dict(spec="VTileTrace", corruption=name, rejected=bool(hit), expected_rejection=True, detail=(hit or v)[:1]))
+
+
+PARTS = {"cell": selftest_cell, "tess": selftest_tess, "nn": selftest_nn, "par": selftest_par, "faces": selftest_faces, "aux": selftest_aux,
+         "session": selftest_session, "tile": selftest_tile}
 
 
 def main(argv):
